@@ -197,6 +197,17 @@ bool ops_module(Ctx &c, Toks const &t, std::string const &rest)
     cvm::clear_error();
     return true;
   }
+  if (op == "m.scriptq") {   // same call, only the return code is reported (scenarios that are not about the dispatcher)
+    std::vector<std::string> args;
+    for (size_t i = 1; i < t.size(); i++) args.push_back(unescape(t[i]));
+    std::vector<unsigned char *> argv;
+    for (auto &a : args) argv.push_back((unsigned char *) a.c_str());
+    cvm::clear_error();
+    int rc = run_colvarscript_command((int) argv.size(), argv.data());
+    c.out("rc", itok(rc != COLVARS_OK ? 1 : 0));
+    cvm::clear_error();
+    return true;
+  }
   if (op == "m.script") {
     std::vector<std::string> args;
     for (size_t i = 1; i < t.size(); i++) args.push_back(unescape(t[i]));
@@ -255,7 +266,7 @@ int main(int argc, char **argv)
       size_t b = rest.find_first_not_of(" ");
       rest = (b == std::string::npos) ? "" : rest.substr(b);
     }
-    bool ok = ops_c18(c, t) || ops_c15(c, t) || ops_c11(c, t) || ops_bias(c, t) || ops_module(c, t, rest);
+    bool ok = ops_c18(c, t) || ops_c15(c, t) || ops_c11(c, t) || ops_bias(c, t) || ops_c13(c, t) || ops_module(c, t, rest);
     (void) ok;
     std::cout.flush();
   }
